@@ -232,20 +232,29 @@ Proof. destruct c; reflexivity. Qed.
 Lemma flatten_as_rep c : flatten c = rep_concat (l_rep c) (wpart (l_wf c) ++ flat_list (l_ch c)).
 Proof. destruct c; reflexivity. Qed.
 
-Lemma split_last_ok : forall l l', forallb good l = true -> split_last l = Some l' ->
+Lemma split_last_p_ok p : forall l l', forallb good l = true -> split_last_p p l = Some l' ->
   forallb good l' = true /\ flat_list l' = flat_list l /\ length l' = S (length l).
 Proof.
   induction l as [|c t IH]; intros l' G H; [discriminate|].
-  cbn [forallb] in G. apply andb_prop in G as [Gc Gt]. cbn [split_last] in H.
-  destruct (split_last t) as [t'|] eqn:E.
+  cbn [forallb] in G. apply andb_prop in G as [Gc Gt]. cbn [split_last_p] in H.
+  destruct (split_last_p p t) as [t'|] eqn:E.
   - injection H as <-. destruct (IH _ Gt eq_refl) as (G' & F' & L').
     repeat split; [cbn [forallb]; now rewrite Gc, G'|now rewrite !flat_list_cons, F'|cbn; now rewrite L'].
-  - destruct (l_rep c >? 1) eqn:Er; [|discriminate]. injection H as <-.
+  - destruct ((l_rep c >? 1) && p c) eqn:Er; [|discriminate]. injection H as <-.
     split; [|split].
     + cbn [forallb]. rewrite !good_set_rep, Gt by (auto; lia). reflexivity.
     + rewrite !flat_list_cons, !flatten_set_rep, (flatten_as_rep c), rep_concat_1.
       rewrite (rep_concat_succ_r (l_rep c)) by lia. now rewrite app_assoc.
     + reflexivity.
+Qed.
+
+Lemma split_last_ok : forall l l', forallb good l = true -> split_last l = Some l' ->
+  forallb good l' = true /\ flat_list l' = flat_list l /\ length l' = S (length l).
+Proof.
+  intros l l' G H. unfold split_last in H.
+  destruct (split_last_p (fun c => negb (l_vol c)) l) as [l1|] eqn:E.
+  - injection H as <-. eapply split_last_p_ok; eauto.
+  - eapply split_last_p_ok; eauto.
 Qed.
 
 Lemma split_until_ok : forall k mn st st', tgood st = true -> split_until k mn st = Ok st' ->
@@ -265,7 +274,7 @@ Qed.
 Lemma partial_unroll_ok st mn st' : tgood st = true -> partial_unroll st mn = Some (Ok st') ->
   tgood st' = true /\ flatten st' = flatten st.
 Proof.
-  intros G H. unfold partial_unroll in H.
+  intros G H. unfold partial_unroll in H. destruct (l_vol st); [discriminate|].
   destruct (sum_reps (l_ch st) * l_rep st >=? mn); [|discriminate].
   injection H as H. destruct (tgood_inv _ G) as (r & m & ch & -> & Hr & Hch).
   destruct (sum_reps (l_ch (Loop r m None ch)) <? mn).
@@ -395,7 +404,7 @@ Proof.
   destruct (l_len cur <? mn).
   2:{ injection H as <- <-. split; [fbs|]. split; [assumption|]. now apply move_skip. }
   destruct (negb (l_rep cur >? 0)); [discriminate|].
-  destruct (l_rep cur =? 1) eqn:E1.
+  destruct ((l_rep cur =? 1) && negb (l_vol cur)) eqn:E1.
   2:{ apply after_unroll_ok in H; auto. destruct H as [H|H]; [exact H|discriminate]. }
   assert (Hc : l_rep cur = 1) by lia.
   assert (NBN : forall nx rt, rest = nx :: rt ->
